@@ -143,7 +143,16 @@ class Runtime {
     }
     return {
       c(N, v) { self.rec('c', [v]); set(N, 'c', '', { v }) },
-      y(N, v) { self.rec('y', [v]); set(N, 'y', '', { v }) },
+      y(N, v) {
+        self.rec('y', [v])
+        // `style` may be a property of a component (proc_gen_wrapper.ts `y`: replaceProperty): queued like `r`
+        if (self.bmMode && N) {
+          if (!N.pending) N.pending = []
+          N.pending.push(() => set(N, 'y', '', { v }))
+          return
+        }
+        set(N, 'y', '', { v })
+      },
       i(N, v) { self.rec('i', [v]); set(N, 'i', '', { v }) },
       s(N, v) { self.rec('s', [v]); if (N) N.slot = v },
       d(N, name, v) { self.rec('d', [name, v]); set(N, 'd', name, { v }) },
